@@ -14,7 +14,11 @@ def F := 64
 /-- a required key: `i7` interface, `c3` class specification, `o5` providedBy(object), `s3.5` providedBy(super(C3, o5)) -/
 def key (u : U) (t : String) : U × Nat :=
   let n : String := (t.drop 1).toString
-  if t.startsWith "i" then (u, n.toNat!)
+  if t == "e" then               -- the shared empty declaration: a specification with no interface of its own below Interface
+    let before := u.cw.g
+    let (cw, s) := implementedBy F u.cw 0
+    (notify before { u with cw := cw } |>.sync, s)
+  else if t.startsWith "i" then (u, n.toNat!)
   else if t.startsWith "c" then
     let before := u.cw.g
     let (cw, s) := implementedBy F u.cw n.toNat!
